@@ -1,9 +1,9 @@
 #!/bin/bash
 # MANIFEST.setup_cmd: builds the harness (and warms the Go build cache) from files on disk only.
 set -e
-cd /verif
-. /verif/env.sh
+cd "$(dirname "$0")"
+. ./env.sh
 ./gen_gomod.sh
-( cd harness && go build -tags verif -o /verif/.cache/bin/vcheck ./cmd/vcheck )
-if [ -f /verif/build_octosql.sh ]; then /verif/build_octosql.sh; fi
+( cd harness && go build -tags verif -o $VERIF_DIR/.cache/bin/vcheck ./cmd/vcheck )
+if [ -f ./build_octosql.sh ]; then ./build_octosql.sh; fi
 echo "setup ok"
